@@ -196,7 +196,7 @@ MAP_CORE = [("grow", 150, 4000), ("churn", 250, 8000), ("saturate", 120, 4000), 
 PROPS = {
     "C17": dict(
         module="Hb.Props.C17",
-        ties=[("pure", {}), ("t1", {})],
+        ties=[("pure", {}), ("t1", {}), ("scen", "reserve", 120, 4000)],
         backends=["sse2", "portable"],
         design="§7 C17",
         text="Lean theorems for all capacities/sizes/alignments/table sizes (no bound); model tied to the source by "
@@ -273,7 +273,7 @@ PROPS = {
         more_modules=["Hb.Props.C02SetTable", "Hb.Props.C02Forget", "Hb.Props.C02Bucket"],
         ties=[("scen", "mixed", 300, 10000), ("scen", "saturate", 80, 3000), ("scen", "entry-full", 120, 4000),
               ("scen", "table", 150, 5000), ("scen", "set", 100, 3000), ("scen", "iter", 100, 3000),
-              ("scen", "panic-mixed", 4, 120), ("scen", "reserve", 100, 3000), ("scen", "clone", 80, 3000), ("custom", miri_support), ("custom", extras_oracle), ("t1", {})],
+              ("scen", "panic-mixed", 4, 120), ("scen", "reserve", 100, 3000), ("scen", "clone", 80, 3000), ("custom", miri_support), ("custom", extras_oracle), ("t1", {}), ("scen", "par", 60, 2000, ["sse2"])],
         backends=["sse2", "portable"],
         design="§7 C02",
         text="Proof of the index/ownership logic: in the Lean model every raw access is checked (control byte outside "
@@ -451,7 +451,7 @@ PROPS = {
     "C07": dict(
         module="Hb.Props.C07",
         more_modules=["Hb.Props.C07History"],
-        ties=[("scen", "set-pairs", 250, 8000), ("scen", "set", 200, 6000), ("scen", "panic-set-pairs", 3, 60), ("custom", extras_oracle)],
+        ties=[("scen", "set-pairs", 250, 8000), ("scen", "set", 200, 6000), ("scen", "panic-set-pairs", 3, 60), ("custom", extras_oracle), ("t1", {})],
         backends=["sse2", "portable"],
         design="§7 C07",
         text="Lean theorems: (i) set_history_refines — every history of 27 HashSet calls on a pair of sets from (new(), new()) "
@@ -718,6 +718,35 @@ T1_GROUPS = [
 ]
 
 
+# The same for the call-shape tie of the API layer (Hb.Proofs.GenEqApi, theorems `api_<item>`): an item bears on the
+# union of all matching rows; an item matching no row bears on every property that has the T1 tie.
+T1_API_GROUPS = [
+    (r"^(api_)?Serde|visit_|deserialize|serialize|cautious", {"C20", "C13"}),
+    (r"^(api_)?Rayon|Par[A-Z]|par_|collect", {"C19", "C16", "C03"}),
+    (r"^(api_)?Set[._]|HashSet", {"C07", "C04", "C05"}),
+    (r"^(api_)?Table[._]|HashTable", {"C06", "C08", "C15"}),
+    (r"Entry|entry|RawEntry|RustcEntry|replace_entry_with|or_insert|and_modify", {"C14", "C02", "C04"}),
+    (r"get_many|build_hashes", {"C15", "C06"}),
+    (r"Iter|Keys|Values|Drain|IntoIter|ExtractIf|_impls$|[._]items$|Intersection|Difference|Union", {"C09", "C10", "C03"}),
+    (r"retain|extract_if|drain|ExtractIf|Drain", {"C10", "C03"}),
+    (r"[Cc]lone|PartialEq|_eq_|par_eq", {"C11", "C04"}),
+    (r"reserve|shrink|capacity|with_capacity", {"C08", "C12"}),
+    (r"^(api_)?Map[._]HashMap[._](insert|try_insert|remove|get|contains|find_or|Extend|FromIterator|From_|Index)", {"C01", "C05", "C13"}),
+    (r"make_hash|make_hasher|equivalent", {"C01", "C05"}),
+    (r"^(api_)?Raw[._]", {"C02", "C10", "C15", "C03", "C09"}),
+]
+
+
+def t1_api_bears_on(pid, names):
+    if not names:
+        return True
+    for n in names:
+        groups = [props for pat, props in T1_API_GROUPS if re.search(pat, n)]
+        if not groups or any(pid in g for g in groups):
+            return True
+    return False
+
+
 def t1_bears_on(pid, log):
     """Names of broken T1 items in a translator / lake log, and whether any of them bears on `pid`."""
     names = set(re.findall(r"gen_(\w+?)(?:_eq|_model)?\b", log)) | set(n.replace("::", "_") for n in re.findall(r"\bfn ([\w:]+)", log))
@@ -791,6 +820,32 @@ def t1_tie(pid, stats, ctx=None):
                                     "# lemma(s) of Hb.Proofs.GenEq that no longer check:\n# " + errs.replace("\n", "\n# ") + "\n" + v.replay_text, True)
         raise Violation("T1: generated definition no longer equals the model (Hb.Proofs.GenEq does not check)",
                         "# lemma(s) of Hb.Proofs.GenEq that no longer check:\n" + errs + "\n", False)
+    # call-shape tie of the API layer: Hb/Gen/Api.lean was regenerated together with Pure.lean; its literal snapshot
+    # lives in Hb/Proofs/GenEqApi.lean (one `rfl` theorem per item)
+    geneq_api = os.path.join(core.LEAN, "Hb", "Proofs", "GenEqApi.lean")
+    if os.path.exists(geneq_api):
+        rc, log = core.sh(["lake", "build", "Hb.Proofs.GenEqApi"], cwd=core.LEAN, timeout=1800)
+        if rc != 0:
+            failing = set()
+            try:
+                src_lines = open(geneq_api).read().split("\n")
+                for m in re.finditer(r"GenEqApi\.lean:(\d+):", log):
+                    ln = int(m.group(1)) - 1
+                    while ln >= 0 and not re.match(r"\s*theorem\b", src_lines[ln]):
+                        ln -= 1
+                    if ln >= 0:
+                        mm = re.match(r"\s*theorem\s+(\S+)", src_lines[ln])
+                        if mm:
+                            failing.add(mm.group(1))
+            except Exception:
+                pass
+            if failing and not t1_api_bears_on(pid, failing):
+                stats["notes"].append("T1 (API call shapes): %s no longer check; these items do not bear on %s — tie not counted against it" % (sorted(failing)[:8], pid))
+                return
+            raise Violation("T1: the call shape of an API-layer function differs from the recorded one (Hb.Proofs.GenEqApi does not check): %s" % ", ".join(sorted(failing)[:6]),
+                            "# items of Hb.Proofs.GenEqApi that no longer check (which inner operations the function performs, in which order; impl lists):\n# "
+                            + "\n# ".join(sorted(failing)[:40]) + "\n# see lean/Hb/Gen/api_items.json for the source function of each item\n", False)
+        stats["notes"].append("T1: Hb/Gen/Api.lean regenerated from /repo, Hb.Proofs.GenEqApi (call shapes of %d API items) rebuilt" % len(re.findall(r"^theorem ", open(geneq_api).read(), flags=re.M)))
 
 
 def run_check(pid, tier, seed):
